@@ -87,6 +87,7 @@ type fileInstr struct {
 	edits    []edit
 	nYield   int
 	nIO      int
+	sites    []string
 }
 
 // chanOps reports which synchronisation operations n contains, not
@@ -228,10 +229,12 @@ func (fi *fileInstr) stmtList(list []ast.Stmt) {
 		if o.io {
 			fi.ins(at, fmt.Sprintf("verifIO(%q); ", fi.label(s.Pos())), 0)
 			fi.nIO++
+			fi.sites = append(fi.sites, "io:"+fi.label(s.Pos()))
 		}
 		if o.any() || rangeChan {
 			fi.ins(at, fmt.Sprintf("verifYield(%q); ", fi.label(s.Pos())), 1)
 			fi.nYield++
+			fi.sites = append(fi.sites, fi.label(s.Pos()))
 		}
 		if o.recv || o.wait || o.sleep {
 			switch inner.(type) {
@@ -554,6 +557,7 @@ type Report struct {
 	IOSites      int      `json:"io_sites"`
 	Uncontrolled []string `json:"uncontrolled"`
 	Overlay      string   `json:"overlay"`
+	Sites        []string `json:"sites"` // labels of all scheduling (file:line) and I/O (io:file:line) points
 }
 
 // Instrument rewrites repo/*.go into out and writes out/overlay.json. The
@@ -613,6 +617,7 @@ func Instrument(repo, out, inpkg string) (*Report, error) {
 		rep.Uncontrolled = append(rep.Uncontrolled, notes...)
 		rep.YieldSites += fi.nYield
 		rep.IOSites += fi.nIO
+		rep.Sites = append(rep.Sites, fi.sites...)
 		if !bytes.Equal(b, p.src) {
 			if bytes.Contains(p.src, []byte("\"sync\"")) {
 				b = append(b, []byte("\nvar _ sync.WaitGroup\n")...)
